@@ -108,8 +108,85 @@ def h(sym, n, symticks, parent, aux_frames, end, running=False, reuse=False):
     return True
 
 
+def script2(bplace, bframes):
+    """outline top > mid > low; conditional auxiliary A (two frames) on mid; a second conditional auxiliary B on top
+    (bplace 'above') or as an earlier clause of mid (bplace 'same'); B has one frame ('done me': completes in its
+    first run) or two."""
+    L = ["house h", "  framer m be active first top"]
+    rec = ["      do verif record at enter", "      do verif record at exit", "      do verif record at recur", "      do verif record at precur"]
+    L += ["    frame top"] + rec + (["      aux b if c_b >= 1"] if bplace == "above" else [])
+    L += ["    frame mid in top"] + rec + (["      aux b if c_b >= 1"] if bplace == "same" else []) + ["      aux a if c_a >= 1"]
+    L += ["    frame low in mid"] + rec
+    L += ["  framer a be aux first p0", "    frame p0"] + rec[:3] + ["      go p1 if y_a >= 1", "    frame p1"] + rec[:3] + ["      done me"]
+    if bframes == 1:
+        L += ["  framer b be aux first q0", "    frame q0"] + rec[:3] + ["      done me"]
+    else:
+        L += ["  framer b be aux first q0", "    frame q0"] + rec[:3] + ["      go q1 if y_b >= 1", "    frame q1"] + rec[:3] + ["      done me"]
+    return "\n".join(L) + "\n"
+
+
+def h2(sym, bplace, bframes, symticks):
+    """two conditional auxiliaries whose activity overlaps: checked directly against the statement (the reference
+    interpreter models one suspension at a time): while an auxiliary that was running before a tick is still running
+    after it, no frame below its main frame has run recur actions or evaluated transitions in that tick"""
+    from engine.flogen import LOG
+    text = script2(bplace, bframes)
+    with flogen.notrace(sym):
+        house = flogen.build_text(text)[0]
+    store = house.store
+    sh = dict((n, store.create(n)) for n in ("c_a", "c_b", "y_a", "y_b"))
+    fr = dict((f.name, f) for f in house.framers)
+    m, a, b = fr["m"], fr["a"], fr["b"]
+    below = {"mid": ["low"], "top": ["mid", "low"]}
+
+    def tick(k, control, vals):
+        store.stamp = k
+        for n, v in vals.items():
+            sh[n].value = v
+        del LOG[:]
+        return m.runner.send(control)
+
+    tick(0, START, dict(c_a=0, c_b=0, y_a=0, y_b=0))
+    tick(1, RUN, dict(c_a=1, c_b=0, y_a=0, y_b=0))        # concrete prelude: A fires and keeps running, low is suspended
+    sym.check((not a.done) and [f.name for f in m.actives] == ["top", "mid"], "C10/harness/prelude", lambda: text)
+    for k in range(2, 2 + symticks):
+        before = dict((x.name, (not x.done, x.main.name if x.main else None)) for x in (a, b))
+        vals = dict((n, sym.int("t%d_%s" % (k, n), 0, 1)) for n in ("c_a", "c_b", "y_a", "y_b"))
+        b_was_done = b.done
+        tick(k, RUN, vals)
+        log = list(LOG)
+        for x in (a, b):
+            was, main0 = before[x.name]
+            if was and not x.done and x.main is not None and x.main.name == main0:
+                sym.cover("aux-%s-running-through-tick" % x.name)
+                other = b if x is a else a
+                how = "none"
+                if before[other.name][0] and other.done:
+                    how = "other-completed-later"
+                elif (not before[other.name][0]) and any(e[0] == other.name and e[2] == "enter" for e in log):
+                    how = "other-completed-in-first-run" if other.done else "other-started"
+                if how != "none":
+                    sym.cover(how)
+                for e in log:
+                    sym.check(not (e[0] == "m" and e[1] in below[main0] and e[2] in ("recur", "precur")),
+                              "C10/two-auxiliaries/frame-below-main-of-running-auxiliary-ran/" + how,
+                              lambda: "tick %d aux %s (main %s) still running; %s\n%s\n%s" % (k, x.name, main0, e, log, text))
+                sym.check(all(f.name not in below[main0] for f in m.actives),
+                          "C10/two-auxiliaries/outline-not-cut-at-main-of-running-auxiliary/" + how,
+                          lambda: "tick %d aux %s main %s actives %s\n%s" % (k, x.name, main0, [f.name for f in m.actives], text))
+    return True
+
+
 def obligations(tier):
     out = []
+    for bplace in ("above", "same"):
+        for bframes in (1, 2):
+            st = 2 if tier == "quick" else 3
+            out.append(Ob("two-aux/%s/b%d/sym%d" % (bplace, bframes, st), h2, dict(bplace=bplace, bframes=bframes, symticks=st), budget=600,
+                          covers=["aux-a-running-through-tick"] + (["other-completed-in-first-run"] if bframes == 1 else []),   # b2: every such path ends in the known finding
+                          bounds=dict(outline="top>mid>low", aux_a="on mid, two frames, running since the prelude tick",
+                                      aux_b="on top" if bplace == "above" else "earlier clause of mid", aux_b_frames=bframes,
+                                      symbolic_ticks=st, share_values="[0,1]")))
     if tier == "quick":
         cfgs = [(3, 1, 2, None, False), (3, 1, 1, STOP, False), (3, 2, 2, None, True), (3, 1, 2, STOP, True),
                 (3, 2, 2, None, True, True)]
